@@ -299,6 +299,106 @@ def asyncmem_stream(res, rng, n):
                           note='regression of C05-asyncmem-read-before-write (fixed in 2897ec7)' if i == 0 else ''))
 
 
+def memory_stream(res, rng, n):
+    """synchronous memories (single and dual port) against the pre-edge rule: at every edge every read port registers the content
+    its cell held BEFORE the edge -- whatever any port writes on that edge -- and then the writes land (port b after port a on a
+    collision); read data is followed through a register.  Inputs are poked before each single edge; golden model in the harness."""
+    import py4hw, contextlib, io
+    from py4hw.logic.storage import SynchronousMemory, DualPortSynchronousMemory
+    for i in range(n):
+        r = rng.fork(i)
+        dual = r.chance(2, 3)
+        aw, dw = r.randint(1, 3), r.choice([1, 4, 8])
+        hw = py4hw.HWSystem()
+        mk = lambda nm, w: hw.wire(nm, w)
+        ports = 'ab' if dual else 'a'
+        W = {}
+        for pch in ports:
+            W[pch] = dict(ra=mk(f'ra_{pch}', aw), wa=mk(f'wa_{pch}', aw), we=mk(f'we_{pch}', 1), rd=mk(f'rd_{pch}', dw), wd=mk(f'wd_{pch}', dw),
+                          q=mk(f'q_{pch}', dw))
+        with contextlib.redirect_stdout(io.StringIO()):
+            if dual:
+                a, b = W['a'], W['b']
+                DualPortSynchronousMemory(hw, 'm', a['ra'], a['wa'], a['we'], a['rd'], a['wd'], b['ra'], b['wa'], b['we'], b['rd'], b['wd'])
+            else:
+                a = W['a']
+                SynchronousMemory(hw, 'm', a['ra'], a['wa'], a['we'], a['rd'], a['wd'])
+            for pch in ports:
+                py4hw.Reg(hw, f'r_{pch}', W[pch]['rd'], W[pch]['q'])
+            sim = hw.getSimulator()
+        mem = [0] * (1 << aw)
+        rd = {pch: 0 for pch in ports}
+        q = {pch: 0 for pch in ports}
+        hist = []
+        few = [r.randint(0, (1 << aw) - 1) for _ in range(2)]       # few addresses: collisions are the interesting case
+        for t in range(r.randint(4, 20)):
+            stim = {}
+            for pch in ports:
+                stim[pch] = dict(ra=r.choice(few), wa=r.choice(few), we=r.randint(0, 1), wd=r.bits(dw))
+                for k_, v_ in stim[pch].items():
+                    W[pch][k_].put(v_)
+            hist.append(stim)
+            sim.clk(1)
+            nq = dict(rd)
+            nrd = {pch: mem[stim[pch]['ra']] for pch in ports}
+            for pch in ports:
+                if stim[pch]['we']:
+                    mem[stim[pch]['wa']] = stim[pch]['wd']
+            rd, q = nrd, nq
+            got = {pch: (W[pch]['rd'].get(), W[pch]['q'].get()) for pch in ports}
+            want = {pch: (rd[pch], q[pch]) for pch in ports}
+            if got != want:
+                res.fail('a memory read port did not register the pre-edge content of its cell (or the value was not carried to the next stage)',
+                         dict(design=('DualPortSynchronousMemory' if dual else 'SynchronousMemory') + ' -> Reg per port', aw=aw, dw=dw,
+                              history=hist, edge=t + 1, observed_rd_q=got, expected_rd_q=want))
+                break
+        res.count(('mem', i, dual, aw, dw), nontrivial=True, hist={'memory_designs': 'dual' if dual else 'single'})
+
+
+def bidir_prepare_stream(res, rng, n):
+    """a shared bidirectional line (BidirWire) driven from clock() with prepare() at every edge next to ordinary wires prepared at the same
+    edge: every prepared update -- the first and every later one -- must become visible at its edge, none lost or carried over"""
+    import py4hw, contextlib, io
+
+    class LineDrv(py4hw.Logic):
+        def __init__(self, parent, name, line, plain, k):
+            super().__init__(parent, name)
+            self.line = self.addInOut('line', line)
+            self.plain = self.addOut('plain', plain)
+            self.k, self.n = k, 0
+
+        def clock(self):
+            self.n += 1
+            self.line.prepare(self.n * self.k)
+            self.plain.prepare(self.n * self.k + 1)
+
+    for i in range(n):
+        r = rng.fork(i)
+        w, k = r.randint(2, 9), r.choice([1, 3, 5, 7])
+        hw = py4hw.HWSystem()
+        line, plain, q = hw.bidir_wire('line', w), hw.wire('plain', w), hw.wire('q', w)
+        LineDrv(hw, 'drv', line, plain, k)
+        py4hw.Reg(hw, 'r', plain, q)
+        with contextlib.redirect_stdout(io.StringIO()):
+            sim = hw.getSimulator()
+        m = (1 << w) - 1
+        done = 0
+        steps = []
+        for t in range(r.randint(2, 8)):
+            c = r.choice([1, 1, 2, 3])
+            steps.append(c)
+            sim.clk(c)
+            done += c
+            got = (line.get(), plain.get(), q.get())
+            want = ((done * k) & m, (done * k + 1) & m, (((done - 1) * k + 1) & m) if done > 1 else 0)
+            if got != want or len(py4hw.Wire.prepared) != 0:
+                res.fail('a prepared update of a bidirectional line was lost, delayed or carried over',
+                         dict(design='LineDrv(clock: line.prepare(n*k); plain.prepare(n*k+1)) -> Reg', width=w, k=k, clk_calls=steps,
+                              edges=done, observed_line_plain_q=got, expected_line_plain_q=want, prepared_left=len(py4hw.Wire.prepared)))
+                break
+        res.count(('bidirprep', i, w, k, tuple(steps)), nontrivial=True, hist={'bidir_prepare_designs': 1})
+
+
 def main(res, tier, rng, replay):
     ok, metas, errors, changed = regenerate()
     for e in errors:
@@ -370,6 +470,8 @@ def main(res, tier, rng, replay):
         res.broken.append(('correspondence', 'net-sim-permuted', str(e)[:300]))
     user_seq_stream(res, rng.fork('userseq'), 60 if tier == 'quick' else 1500)
     asyncmem_stream(res, rng.fork('asyncmem'), 60 if tier == 'quick' else 1500)
+    memory_stream(res, rng.fork('mem'), 80 if tier == 'quick' else 2000)
+    bidir_prepare_stream(res, rng.fork('bidirprep'), 40 if tier == 'quick' else 800)
     res.cov['rule'] = ('seeded random netlists with register chains/feedback, memories, sequences, AutoReset; each built 4 times from the same '
                        'plan: reference, externally permuted clockables+driver order, clk(n) split into clk(1), and a permuted run compared '
                        'wire-for-wire with the Lean model; non-trivial = at least 2 sequential leaves; oracle on the implementation: permuted == '
